@@ -470,7 +470,10 @@ Group:
                 if not value:           # e.g. productDir is None when the file had no PROD_DIR
                     continue
 
-                if os.path.isfile(value) or os.path.isdir(value):
+                # only an absolute value names a file: a relative one is already relative to the stack
+                # (productDir), the product directory (ups_dir) or the ups directory (table_file), never
+                # to the directory we happen to be in
+                if os.path.isabs(value) and (os.path.isfile(value) or os.path.isdir(value)):
                     if trimDir and eups.utils.isSubpath(value, trimDir):
                         value = os.path.realpath(value)
                         if trimDir == value:
